@@ -77,16 +77,24 @@ impl UpdateGenerator for MarkdownUpdateGenerator {
                     language,
                     config_lines,
                     comment_lines,
-                    code_lines: _,
+                    code_lines,
                 } => {
                     let config = if config_lines.is_empty() {
                         "".into()
                     } else {
                         format!(" {{{}}}", config_lines.join_newline().trim_start())
                     };
-                    let generated = outcomes[testcase_index]
-                        .generate_testcase()
-                        .with_context(|| format!("testcase number {}", testcase_index + 1))?;
+                    let generated = if code_lines.is_empty() {
+                        // a block without code holds no testcase (the parser skips it as
+                        // well), hence there is no outcome that belongs to it
+                        String::new()
+                    } else {
+                        let generated = outcomes[testcase_index]
+                            .generate_testcase()
+                            .with_context(|| format!("testcase number {}", testcase_index + 1))?;
+                        testcase_index += 1;
+                        generated
+                    };
                     let backticks = "`".repeat(max_backtick_size(&generated) + 1);
                     updated.push_str(&formatln!("{}{}{}", &backticks, &language, &config));
                     for (_, line) in &comment_lines {
@@ -94,7 +102,6 @@ impl UpdateGenerator for MarkdownUpdateGenerator {
                     }
                     updated.push_str(&generated);
                     updated.push_str(&backticks.assure_newline());
-                    testcase_index += 1;
                 }
             }
         }
